@@ -8,6 +8,6 @@ CONSTANTS
   OccRates = {1, 2, 3}
   T = 1
 SPECIFICATION Spec
-INVARIANTS OrderLemma WitnessLemma UnaryLemma ZigzagLemma KasaiCarry KasaiPartial KasaiFinal SGetWalkInv SGetFinal
+INVARIANTS OrderLemma WitnessLemma UnaryLemma ZigzagLemma PermLemma KasaiCarry KasaiPartial KasaiFinal SGetWalkInv SGetFinal
 PROPERTY Progress
 CHECK_DEADLOCK FALSE
